@@ -241,6 +241,7 @@ func runC06(c *Ctx) {
 	// failures surface: the upload fan-out protocol guarantees that a worker's error is received before the done signal
 	// (shared with C04/C15): otherwise uploadBundle goes on to write the descriptor of an incomplete bundle
 	checkCoreFanouts(c)
+	checkNoRelabelAsMissing(c, "reader-requires-descriptor.no-relabel")
 }
 
 // checkSilentSkipOnlyNotExists: in a worker loop `for k := range input { v, err := f(k); if err != nil { ... continue } ; output <- ok }`
